@@ -321,6 +321,11 @@ pub fn corpora(tier: Tier) -> Vec<Corpus> {
     out.extend(tag_matrix_corpora(2, 2, 1));
     out.extend(tag_matrix_corpora(3, 2, tier.pick(11, 2)));
     out.extend(tag_matrix_corpora(2, 3, tier.pick(11, 2)));
+    out.extend(tag_matrix_corpora(4, 2, tier.pick(97, 13)));
+    // longer and multi-byte tokens, four categories, the same token at sentence start / middle / end
+    out.push(Corpus { name: "long-tokens".into(), lines: vec![(false, "abc/T/u ab/S c/V/w".into()), (false, "c/V/x abc/T/v a ab/S".into()), (false, "abc/R/u abc/T/u".into()), (false, "cd c d dc".into())], tag_dict: vec!["abcd/Q/q".into()] });
+    out.push(Corpus { name: "multibyte-tokens".into(), lines: vec![(false, "𠀋/K/1 あ/H 𠀋あ/M/2/3/4".into()), (false, "あ/H2 𠀋/K/2 𠀋あ/M/2/3/5".into()), (false, "𠀋/L/1 あ".into()), (false, "cd c d dc".into())], tag_dict: vec![] });
+    out.push(Corpus { name: "positions".into(), lines: vec![(false, "a/X b a/Y".into()), (false, "b a/X b".into()), (false, "a/Y b b".into()), (false, "b b a/X".into()), (false, "cd c d dc".into())], tag_dict: vec![] });
     // partially annotated sentences
     for (n, lines) in [
         ("partial-1", vec![(true, "a/X|b-a/Y".to_string()), (true, "a b/Q|a/Z".to_string()), (true, "a/Y|a/X".to_string())]),
